@@ -198,6 +198,87 @@ def case_midpoint_vs_ns(log, order):
 
 
 # ---------------------------------------------------------------------------
+# ---------------------------------------------------------------------------
+# the ekore grids handed to the QED non-singlet kernel: at alpha_em^0 the column gamma_ns_qed[1:, 0] is the pure-QCD tower of the
+# sector the unified label belongs to (ns+u, ns+d -> ns+; ns-u, ns-d -> ns-), entry by entry, N3LO variants and variation index included
+# ---------------------------------------------------------------------------
+NS_REDUCTION = {10102: 10101, 10103: 10101, 10202: 10201, 10203: 10201}
+
+
+class _UF:
+    """stands for a per-order ekore module: every function is an uninterpreted function of its arguments (the harmonic cache,
+    a scratch buffer, is not part of the key), so the same call gives the same symbol in the QED grid and in the QCD tower"""
+
+    def __init__(self, real, path):
+        self._real, self._path = real, path
+
+    def __getattr__(self, name):
+        real = getattr(self._real, name)
+        if not callable(real):
+            return _UF(real, self._path + "." + name)
+        path = self._path
+
+        def leaf(*args, **kw):
+            import hashlib
+
+            # keyword and positional spellings of the same call are the same call
+            key = [path, name] + [repr(a) for a in list(args) + [v for _k, v in sorted(kw.items())] if isinstance(a, (int, SR, Cx))]
+            h = hashlib.sha1("|".join(key).encode()).hexdigest()[:12]
+            return Cx(SR.var("uf_%s_re" % h), SR.var("uf_%s_im" % h))
+
+        return leaf
+
+
+def case_grid_ns(log):
+    ad = sym_module("ekore.anomalous_dimensions.unpolarized.space_like")
+    log.encode(ad.gamma_ns_qed, ad.gamma_ns)
+    log.assume("per-order ekore modules (as1..as4, as4.fhmruvv, aem1, aem2, as1aem1) -> uninterpreted functions of (N, nf, variation)")
+    saved = {k: getattr(ad, k) for k in ("as1", "as2", "as3", "as4", "aem1", "aem2", "as1aem1") if hasattr(ad, k)}
+    var = (11, 12, 13, 14, 15, 16, 17)
+    try:
+        for k, m in saved.items():
+            setattr(ad, k, _UF(m, k))
+        for fh in (True, False):
+            for q in (1, 2, 3, 4):
+                for e in (1, 2):
+                    def run(q=q, e=e, fh=fh):
+                        n = Cx(SR.var("N_re"), SR.var("N_im"))
+                        for mode, qcd_mode in NS_REDUCTION.items():
+                            for nf in (3, 4, 5, 6):
+                                rp = (MOD, "replay_grid_ns", {"q": q, "e": e, "mode": mode, "nf": nf, "fh": fh})
+                                tag = "gamma_ns_qed(order=(%d,%d), mode=%d, nf=%d, use_fhmruvv=%s)" % (q, e, mode, nf, fh)
+                                grid = ad.gamma_ns_qed((q, e), mode, n, nf, var, fh)
+                                tower = ad.gamma_ns((q, 0), qcd_mode, n, nf, var, fh)
+                                for k in range(1, q + 1):
+                                    v = prove_zero(Cx.lift(grid[k, 0]) - Cx.lift(tower[k - 1]), "%s[%d, 0] == gamma_ns(mode=%d)[%d]: the alpha_em^0 column is the QCD tower of the sector" % (tag, k, qcd_mode, k - 1))
+                                    log.decide(v, key="gamma_ns_qed:qcd-column", replay=rp, sampler=_sampler)
+                                v = prove_zero(Cx.lift(grid[0, 0]), "%s[0, 0] == 0" % tag)
+                                log.decide(v, key="gamma_ns_qed:qcd-column", replay=rp, sampler=_sampler)
+
+                    _r, pm = explore(run, max_paths=4)
+                    log.path_stats(pm)
+        log.twin("domain")
+    finally:
+        for k, m in saved.items():
+            setattr(ad, k, m)
+
+
+def replay_grid_ns(point, q, e, mode, nf, fh):
+    import numpy as np
+    import ekore.anomalous_dimensions.unpolarized.space_like as ad
+
+    var = (1, 2, 1, 2, 1, 2, 1) if fh else (0,) * 7
+    for n in (2.5 + 0.5j, 4.0 + 1.0j, 1.3 - 2.0j):
+        grid = ad.gamma_ns_qed((q, e), mode, n, nf, var, fh)
+        tower = ad.gamma_ns((q, 0), NS_REDUCTION[mode], n, nf, var, fh)
+        d = np.abs(np.array(grid[1 : q + 1, 0]) - np.array(tower[:q]))
+        if d.max() > 1e-10 * max(1.0, float(np.abs(tower).max())):
+            k = int(np.argmax(d))
+            return {"detail": "gamma_ns_qed((%d,%d), %d, N=%r, nf=%d, variation=%r, use_fhmruvv=%s)[%d, 0] = %r but the QCD tower gamma_ns(mode=%d)[%d] = %r"
+                              % (q, e, mode, n, nf, var, fh, k + 1, complex(grid[k + 1, 0]), NS_REDUCTION[mode], k, complex(tower[k]))}
+    return None
+
+
 def _sampler(rng):
     p = {"a0": rnd(rng, 0.005, 0.04), "a1": rnd(rng, 0.005, 0.04), "a2": rnd(rng, 0.005, 0.04), "mu2_from": rnd(rng, 2, 50), "mu2_to": rnd(rng, 2, 500)}
     for i in range(5):
@@ -318,6 +399,8 @@ def main():
             chk.case("%s.o%d%d" % (sec, od[0], od[1]), case_matrix, order=od, sector=sec)
     for o in (1, 2, 3):
         chk.case("midpoint-vs-ns.o%d" % o, case_midpoint_vs_ns, order=o)
+    chk.bounds.append("ekore non-singlet QED grids: orders (1..4, 1..2) x 4 unified labels x nf 3..6 x both N3LO variants, N and the per-order functions symbolic")
+    chk.case("grid.ns", case_grid_ns)
     # "for the same coupling steps": the steps the real Operator supplies (geometric a_s nodes, midpoint couplings of each step)
     from . import opwire
 
